@@ -304,10 +304,11 @@ func (x *expectation) iface(sh *gen.TD, pol string, old reflect.Value, s *gen.Tr
 	}
 	switch k := stripPtr(ht).Shape().Kind; {
 	case leafBase(stripPtr(ht)) != "":
-	case (k == "slice" || k == "array") && s.K != "list", (k == "map" || k == "struct") && s.K == "list":
-		// The generator writes lists for lists and objects for maps and structs, so this only happens when a later
-		// call of a history meets a value an earlier call stored. The library takes a setting that is no list for a
-		// list of one element and a list for an object without named settings (it is silently ignored): not followed
+	case (k == "slice" || k == "array") && s.K != "list" && (generic || !s.IsPrim()), (k == "map" || k == "struct") && s.K == "list":
+		// The generator writes lists or plain values (for lists of one element) for pre-filled lists and objects for
+		// maps and structs, so this only happens when a later call of a history meets a value an earlier call stored.
+		// The library takes a setting that is no list for a list of one element and a list for an object without
+		// named settings (it is silently ignored): not followed for generic values
 		x.outside = true
 		return invalid, nil
 	}
